@@ -101,7 +101,7 @@ fn simple_input(len: usize, seed: u64) -> InputSpec {
 
 pub fn run(ctx: &Ctx) {
     ctx.rule(
-        "exhaustive part: every input length k*B + r for B in {32, 192}, r in 0..B, k in 0..=2, single- and multi-thread; generated part: (config, input, entry point) with final-block residues 1..=15 forced in 30% of cases; \
+        "exhaustive part: every input length k*B + r for B in {32, 192}, r in 0..B, k in 0..=2, single- and multi-thread; many-frames part: streams of 127..4100 (thorough: up to 70000) frames of 32/64 samples (silence, tone, quiet-then-loud) through all three entry points, so that the smallest / largest frames carry multi-byte frame numbers; generated part: (config, input, entry point) with final-block residues 1..=15 forced in 30% of cases; \
          oracle from the reference decoder's trace: max_block = requested, 16 <= min_block <= every non-final frame, min/max frame size = smallest/largest emitted frame, claxon accepts; \
          non-trivial = final block shorter than the block size (r != 0); distinct by case hash",
     );
@@ -127,6 +127,9 @@ pub fn run(ctx: &Ctx) {
         }
     }
     ctx.set_extra("exhaustive_spaces", serde_json::json!(["len mod block for block 32 and 192 (k = 0,1,2 full blocks before the final one), both stream-level entry points"]));
+    // many small frames: 2- and 3-byte (thorough: 4-byte) frame numbers on the largest / smallest frames
+    let mf = many_frames_cases(ctx.tier == crate::core::Tier::Thorough);
+    ctx.enumerate_all("many-frames", 16, mf.len() as u64, |i| mf[i as usize].clone(), check);
     let per = ctx.tier.scale(1000, 10);
     let co = CfgOpts { allow_multithread: true, ..Default::default() };
     ctx.search("stream", 16, per, &|| stream_case_strategy(co, InOpts::default(), true), check);
